@@ -219,21 +219,18 @@ def has_guard(guards, text, exc=None, loop_vals=None):
 
 
 def add_validation(rep, idx):
+    from .common import get_fn, check_refusal
     fi = idx.find_func("Arbiter.add")
     site = fi.site
     apirules.atomic(rep, "C08.5", idx, fi)
-    g = raise_guards(fi)
-    checks = [
-        ("not isinstance(intr_bus, Interface)", "TypeError", None, "initiator must be a wishbone.Interface"),
-        ("intr_bus.addr_width != self.bus.addr_width", "ValueError", None, "address widths must be equal"),
-        ("intr_bus.granularity < self.bus.granularity", "ValueError", None, "initiator granularity must not be finer than the arbiter's"),
-        ("intr_bus.data_width != self.bus.data_width", "ValueError", None, "data widths must be equal"),
-        ("hasattr(self.bus, opt_output) and not hasattr(intr_bus, opt_output)", "ValueError", ["err", "rty"],
-         "shared-bus err/rty need a corresponding initiator input"),
-    ]
-    for text, exc, lv, what in checks:
-        rep.check(has_guard(g, text, exc, lv), "C08.5", site, f"add(): {what}",
-                  f"no `if {text}: raise {exc}` found" + (f" in a loop over {lv}" if lv else ""))
+    c = get_fn(idx, fi)
+    check_refusal(rep, "C08.5", c, "add(): initiator must be a wishbone.Interface", "not isinstance(intr_bus, Interface)", "TypeError")
+    check_refusal(rep, "C08.5", c, "add(): address widths must be equal", "intr_bus.addr_width != self.bus.addr_width", "ValueError")
+    check_refusal(rep, "C08.5", c, "add(): initiator granularity must not be finer than the arbiter's",
+                  "intr_bus.granularity < self.bus.granularity", "ValueError")
+    check_refusal(rep, "C08.5", c, "add(): data widths must be equal", "intr_bus.data_width != self.bus.data_width", "ValueError")
+    check_refusal(rep, "C08.5", c, "add(): shared-bus err/rty need a corresponding initiator input",
+                  "hasattr(self.bus, v) and not hasattr(intr_bus, v)", "ValueError", loop_values=["err", "rty"])
     # the registration itself
     appends = [n for n in ast.walk(fi.node) if isinstance(n, ast.Call) and isinstance(n.func, ast.Attribute)
                and n.func.attr == "append" and ast.unparse(n.func.value) == "self._intrs"]
